@@ -610,6 +610,8 @@ func (x *FnExec) storeTyped(st *State, p *Place, prefix string, t types.Type, v 
 		if !ok {
 			if iv, ok2 := v.(*IfaceV); ok2 {
 				tv = iv.id
+			} else if fv, ok2 := v.(*FuncV); ok2 {
+				tv = x.funcId(fv)
 			} else {
 				unsupp("storing a non-scalar (%T, e.g. interior pointer) into the heap at %s", v, prefix)
 			}
@@ -758,4 +760,20 @@ func (x *FnExec) ptrPlace(v Value, ptrT types.Type) *Place {
 	}
 	unsupp("pointer value of kind %T", v)
 	return nil
+}
+
+// funcId: function values stored in memory are opaque non-nil identifiers (calls through them use
+// `funcval:<type>` contracts).
+func (x *FnExec) funcId(fv *FuncV) *Term {
+	var t *Term
+	if len(fv.binds) == 0 {
+		t = x.tc.Sym("fn:"+fv.fn.String(), x.refSort())
+	} else {
+		t = x.tc.Fresh("closure:"+fv.fn.Name(), x.refSort())
+	}
+	if !x.ranged[-t.id] {
+		x.ranged[-t.id] = true
+		x.addFact(x.tc.Not(x.tc.Eq(t, x.refConst(0))))
+	}
+	return t
 }
